@@ -37,6 +37,7 @@ import (
 	"verif/mc/evgen"
 	"verif/mc/fedgen"
 	"verif/mc/harness"
+	"verif/mc/ref/refversions"
 	"verif/mc/ref/refevent"
 	"verif/mc/ref/refjson"
 )
@@ -315,6 +316,32 @@ func (env *venv) driveEvent(rp *reporter, path string, p gmsl.PDU, level int) {
 			}
 		}
 		t("ResolveStateConflicts-v1", func() { gmsl.ResolveStateConflicts(all, all, uidParse) })
+	}
+	// the event (whatever it is: with or without a state key) cited as an auth event by two valid, conflicting control
+	// events of the same room: state resolution then reads it while ordering and authorising them
+	if rid, rerr := spec.NewRoomID(roomOf(p)); rerr == nil && rid != nil && p.EventID() != "" {
+		var jrs []gmsl.PDU
+		for i, rule := range []string{"invite", "public"} {
+			sk := ""
+			tag := fmt.Sprintf("cjr%d", i)
+			e := evgen.Ev{Type: "m.room.join_rules", Sender: alice, RoomID: roomOf(p), StateKey: &sk, Content: `{"join_rule":"` + rule + `"}`, Prev: []string{}, Auth: []string{p.EventID(), eid(env.version, "create"), eid(env.version, "alice")}, Depth: 9, TS: int64(10 + i), NoHash: true, EventID: eid(env.version, tag)}
+			if refversions.Get(env.version).DomainlessRoomIDs {
+				e.Auth = []string{p.EventID(), eid(env.version, "alice")}
+			}
+			if ev, err := env.ver.NewEventFromTrustedJSONWithEventID(eid(env.version, tag), e.JSON(env.version), false); err == nil {
+				jrs = append(jrs, ev)
+			}
+		}
+		if len(jrs) == 2 {
+			sets := [][]gmsl.PDU{append(append([]gmsl.PDU{}, env.state...), jrs[0]), append(append([]gmsl.PDU{}, env.state...), jrs[1])}
+			auth := append(append([]gmsl.PDU{}, env.state...), p, jrs[0], jrs[1])
+			t("ResolveConflictsNew-cited-as-auth", func() {
+				gmsl.ResolveConflictsNew(gmsl.RoomVersion(env.version), sets, auth, uidParse, func(string) bool { return false })
+			})
+			t("ResolveConflicts-cited-as-auth", func() {
+				gmsl.ResolveConflicts(gmsl.RoomVersion(env.version), append(append([]gmsl.PDU{}, env.state...), jrs...), auth, uidParse, func(string) bool { return false })
+			})
+		}
 	}
 	t("ReverseTopologicalOrdering", func() {
 		all := append(append([]gmsl.PDU{}, env.state...), p)
@@ -718,6 +745,7 @@ func run(r *harness.Run) {
 		}
 		return perr
 	})
+	protoTemplates(r)
 	if r.Replaying() {
 		return
 	}
@@ -760,6 +788,17 @@ func run(r *harness.Run) {
 						continue
 					}
 					jobs = append(jobs, job{env, b, []sub{{Path: fl.Path, Val: val, Dup: 1}}, single}, job{env, b, []sub{{Path: fl.Path, Val: val, Dup: 2}}, single})
+					if !strings.Contains(fl.Path, "/") {
+						// the same on a wide event: padded with junk members to 20 and more top-level members (sorting routines
+						// switch algorithm with the width, and an unstable one reorders equal keys)
+						for _, d := range []int{1, 2} {
+							ss := []sub{{Path: fl.Path, Val: val, Dup: d}}
+							for k := 0; k < 9; k++ {
+								ss = append(ss, sub{Path: fmt.Sprintf("zz_pad%d", k), Val: "0"})
+							}
+							jobs = append(jobs, job{env, b, ss, single})
+						}
+					}
 				}
 			}
 			if (r.Quick() && !quickPairVers[v]) || os.Getenv("C18_NO_PAIRS") != "" {
@@ -843,4 +882,61 @@ func run(r *harness.Run) {
 	}
 	deepProbes(r)
 	_ = evgen.B64
+}
+
+
+// protoTemplates: the proto-event of a make_join / make_leave / make_knock response is remote data that the joining server
+// completes with EventBuilder.Build. Every pair of values from a menu of reference-list shapes as prev_events / auth_events,
+// in every room version, decoded as the handshake code does and built.
+func protoTemplates(r *harness.Run) {
+	menu := []string{`[]`, `[""]`, `[[]]`, `[[""]]`, `[[1]]`, `[null]`, `[{}]`, `["$x"]`, `["$x:a.org"]`, `[["$x:a.org"]]`, `[["$x:a.org",{}]]`, `[["$x:a.org",{"sha256":5}]]`, `"str"`, `5`, `null`, `{}`, `[[],[]]`, `["", ""]`, `[true]`, `[1.5]`, `["$` + strings.Repeat("A", 43) + `"]`, `["$"]`}
+	type tcase struct{ Version, Prev, Auth string }
+	run := func(c tcase) error {
+		text := `{"type":"m.room.member","state_key":"@u:a.org","sender":"@u:a.org","room_id":"!r:a.org","content":{"membership":"join"},"depth":5,"prev_events":` + c.Prev + `,"auth_events":` + c.Auth + `}`
+		var msg string
+		if p, m := harness.Try(func() {
+			var pe gmsl.ProtoEvent
+			if err := json.Unmarshal([]byte(text), &pe); err != nil {
+				return
+			}
+			ver := gmsl.MustGetRoomVersion(gmsl.RoomVersion(c.Version))
+			k := fedgen.Keys["a.org"]
+			ev, err := ver.NewEventBuilderFromProtoEvent(&pe).Build(time.UnixMilli(1700000000000), "a.org", "ed25519:1", k.Priv)
+			if err == nil && ev != nil {
+				ev.PrevEventIDs()
+				ev.AuthEventIDs()
+				ev.EventID()
+			}
+		}); p {
+			msg = m
+		}
+		if msg != "" {
+			return fmt.Errorf("building the event of a make_join template with prev_events %s / auth_events %s panics: %s", c.Prev, c.Auth, msg)
+		}
+		return nil
+	}
+	r.OnReplay("template", func(raw json.RawMessage) error {
+		var c tcase
+		if err := json.Unmarshal(raw, &c); err != nil {
+			return err
+		}
+		return run(c)
+	})
+	if r.Replaying() {
+		return
+	}
+	n := 0
+	for _, v := range versions() {
+		for _, pv := range menu {
+			for _, av := range menu {
+				c := tcase{v, pv, av}
+				n++
+				r.Eval()
+				if err := run(c); err != nil {
+					r.Violation(fmt.Sprintf("panic-template:%s:%s:%s", v, pv, av), err.Error(), "template", c)
+				}
+			}
+		}
+	}
+	r.Count("make_join_templates_built", int64(n))
 }
